@@ -19,6 +19,7 @@ import os
 
 import gridlib as gl
 import vlib
+import c04treewalk
 
 LEVEL = "proof"
 PID = "C05"
@@ -787,6 +788,9 @@ def run(res, tier, seed, only=None):
         if stats["exact_evals"] > before[0] and stats["fd_evals"] > before[1]:
             nontrivial += 1
 
+    # the tree walk of differentiate / derivative sparse rows (walkTree modes 3 and 4): visited sequences and gradients vs the extracted model
+    if not only:
+        c04treewalk.run_diff(res, tier, seed)
     if mism and not res.violations:
         res.violation("correspondence", "RuleLocal model and implementation disagree on %d points, e.g. %s" % (len(mism), mism[0][:300]),
                       {"kind": "correspondence-break", "correspondence": "Model.RuleLocal getNode/getSupport/scaleDiffX/evalRaw/evalSupport/diffSupport vs RuleLocal:: templates",
@@ -830,5 +834,8 @@ def replay(path):
     rp = json.load(open(path))
     tier = rp.get("tier", "quick")
     res = vlib.Result(PID, tier, rp.get("seed", 1), LEVEL)
+    if rp.get("driver") == "walkdrv":
+        c04treewalk.run_diff(res, "quick", rp.get("seed", 1), replay_script=rp.get("script"))
+        return res.finish()
     run(res, tier, rp.get("seed", 1), only=rp.get("case"))
     return res.finish()
